@@ -189,7 +189,10 @@ def r3_stored_value(report, repo, only_cache=False):
 
   f, g, stores, caches = _store_rules(report, repo, rule, 'MeasuredValue.set',
                                       mv_store, mv_cache, cr, **kw)
-  report.expect_instances(rule, len(caches), 1, 'MeasuredValue cache writes')
+  if only_cache and not caches:
+    report.violation(cr, f.qualname, 'cache-missing', f.node,
+                     'MeasuredValue.set no longer fills _cached_value: '
+                     'basetype_value() serves a stale or missing rendering')
   for c in (caches if only_cache else []):
     v = c.ast.value
     ok = isinstance(v, ast.Call) and last_attr(v) == 'convert_to_base_types' \
@@ -220,7 +223,10 @@ def r3_stored_value(report, repo, only_cache=False):
   f, g, stores, caches = _store_rules(
       report, repo, rule, 'DimensionedMeasuredValue.__setitem__', dm_store,
       dm_cache, cr, **kw)
-  report.expect_instances(rule, len(caches), 1, 'dimensioned cache appends')
+  if only_cache and not caches:
+    report.violation(cr, f.qualname, 'cache-missing', f.node,
+                     'DimensionedMeasuredValue.__setitem__ no longer appends '
+                     'to (or invalidates) the base-type cache')
   for s in stores:
     t = [t for t in s.ast.targets if isinstance(t, ast.Subscript)][0]
     report.check(core.is_name(t.slice, 'coordinates'), rule, f.qualname,
